@@ -11,13 +11,17 @@ D = "config.json programs/tables translated to SMT (z3 reals), walk model valida
 
 CHECKS = {
     "C01": ("K", "model_checking",
-            "execute_session's loop: for every line count 1..4 and every per-line outcome exactly one slot per line, status true (CBMC, all inputs within the bound); panic-freedom of the rule functions and DataItem kernels is decided by the engine-M parts of C05/C06/C09/C10/C11/C13/C14 (every panic path of the translated functions is a reachability query)",
-            "stage A (regex tokenisers, line splitting by the regex, load_from_json) is outside the claim; execute_text is a nondeterministic stub inside the loop harness",
-            "solver-based: CBMC bounded model checking of SmartCalc::execute_session"),
+            "execute_session's loop: for every line count 1..4 and every per-line outcome exactly one slot per line, status true (CBMC); stages C-E (token glue, parser ladder, interpreter) executed symbolically from MIR on every token list of length <= 4 (quick) / 5 (thorough) over {number, + - * / ( )}: no satisfiable panic path, every loop and recursion terminates; panic-freedom of the rule functions and DataItem kernels is decided by the engine-M parts of C05/C06/C09/C10/C11/C13/C14 (every panic path of the translated functions is a reachability query)",
+            "stage A (regex tokenisers, line splitting by the regex, load_from_json) is outside the claim; execute_text is a nondeterministic stub inside the loop harness; token lists are bounded in length and alphabet",
+            "solver-based: CBMC bounded model checking + z3 over MIR-derived path conditions"),
     "C02": ("K+M", "model_checking",
-            "evaluation step of the precedence property: NumberItem::calculate for the four operators on all f64 pairs (CBMC: result kind, NumberType, bit-exact value for + and -; z3 over the MIR: the real operation with x/0 -> 0 for all four)",
-            "the parser ladder and the token glue are not yet covered by a finished check (CBMC harnesses exist but run out of memory; see DESIGN.md); literal spelling / spacing / suffixes are stage A",
-            "solver-based: CBMC + z3 over MIR-derived path conditions"),
+            "the REAL token glue, parser ladder and interpreter, translated from MIR, on every token list of length <= 4 (quick) / 6 (thorough) over {number, + - * / ( )}: every well-formed expression evaluates to the value given by precedence, left associativity, parentheses, sign prefixes, juxtaposition = '+' and x/0 = 0 for ALL real operand values (shapes enumerated exhaustively, values symbolic, z3); plus NumberItem::calculate on all f64 pairs (CBMC)",
+            "literal spelling / spacing / k-M-G suffixes are stage A (regex) and outside; f64 rounding of individual operations outside (real relaxation); expression length bounded",
+            "solver-based: z3 over SMT generated from the MIR of the real parser/interpreter + CBMC"),
+    "C03": ("M", "translation_validation",
+            "every straight-line program of <= 3 lines (quick; plus all three names bound then any two statements) / <= 4 lines (thorough) over 17 statement templates (assignments, self-referential re-assignments, uses, lines failing in the parser, lines failing in the interpreter, copies) with one- and two-word names where one name is a prefix of another, through the REAL update_token_variables, token_generator, token_cleaner, missing_token_adder, AssignmentParser and interpreter (MIR): each line evaluates to the value given by the latest bindings for ALL real constants",
+            "names are Text tokens (case folding and literal spelling are stage A); values are numbers; program length and name pool bounded",
+            "solver-based: z3 over SMT generated from the MIR, program shapes enumerated exhaustively"),
     "C04": ("K+M", "model_checking",
             "session re-use: set_text puts the cursor back and stores the new lines on every path (z3/path enumeration over its MIR); from that state execute_session returns exactly line_count slots for every n <= 4 and every per-line outcome (CBMC)",
             "calculator immutability across evaluations (pattern tokens) and variable isolation are not covered by a finished check; line splitting itself is regex code",
@@ -31,8 +35,8 @@ CHECKS = {
             "rate table lookups are uninterpreted functions of the currency; update_currency histories and literal spellings are outside; f64 rounding outside",
             "solver-based: z3 over SMT generated from the MIR of the real functions"),
     "C09": ("K+M", "model_checking",
-            "DateItem::calculate on the real chrono: every date of years 1..9999 +- n days (n < 30) is exactly n days away (CBMC); 'A to B' on dates/times is the absolute difference (z3 over MIR)",
-            "month/year arithmetic of DateItem::calculate has known defects (see known_findings.json / DESIGN.md) and is checked by separate harnesses; date spellings are regex",
+            "DateItem::calculate on the real chrono: every date of years 1..9999 +- n days (n < 30) is exactly n days away; + Y years M months keeps the day and moves the month index by 12Y+M inside the stated region (CBMC); small_date accepts exactly the calendar dates and denotes them (z3 over MIR, Gregorian model validated against chrono by CBMC); 'A to B' on dates is the absolute difference",
+            "month/year arithmetic of DateItem::calculate outside the stated region (December landings, day > 28, subtraction across a year boundary, day counts >= 30 that are not month multiples) is NOT claimed: it has defects documented in DESIGN.md section 7; date spellings are regex",
             "solver-based: CBMC bounded model checking + z3 over MIR"),
     "C10": ("M", "translation_validation",
             "duration_parse (unit lengths, |N| <= 10^6), combine_durations (sum of 2..6 parts), as_duration (floor to unit), DurationItem::calculate (+,-), DurationItem::print (greedy decomposition: parts sum to |D|, counts >= 1 and below the next unit, descending) for every duration in chrono's range; integers exact",
@@ -43,8 +47,8 @@ CHECKS = {
             "chrono modelled as (day number, second of day); chrono::Local modelled as one arbitrary fixed offset; zone table lookup, am/pm and GMT+-h:mm parsing are regex code",
             "solver-based: z3 over SMT generated from the MIR with validated chrono models"),
     "C12": ("D", "translation_validation",
-            "all 1089 ordered pairs of the 33 configured units: the composed conversion programs equal the standard definitions, different kinds have no path, round trips and transitivity hold (z3 over exact rationals); the walk model is compared with the native crate on all pairs at two amounts on every run",
-            "f64 rounding along the chain and separator-dependent re-tokenisation (C08) are outside; DynamicTypeItem::calculate arithmetic is not yet covered",
+            "all 1089 ordered pairs of the 33 configured units: the composed conversion programs equal the standard definitions, different kinds have no path, round trips and transitivity hold (z3 over exact rationals); the walk model is compared with the native crate on all pairs at two amounts on every run; DynamicTypeItem::calculate converts the right operand into the left unit, keeps the unit when scaling, yields a plain number for a ratio (z3 over MIR, conversion uninterpreted)",
+            "f64 rounding along the chain and separator-dependent re-tokenisation (C08) are outside",
             "solver-based: z3 over the linear programs of config.json + native translator validation"),
     "C13": ("M+K", "translation_validation",
             "NumberItem::print hands the {:#b}/{:#o}/{:#X} formatter exactly N for every integer 0 <= N <= 2^53; number_type_convert rounds half away from zero and sets the named type for all five keywords; NumberItem::calculate keeps the left NumberType (CBMC, all f64)",
@@ -57,7 +61,6 @@ CHECKS = {
 }
 
 NA = {
-    "C03": "variable binding and substitution run through Vec<Rc<TokenInfo>> surgery and String building that CBMC could not finish within memory on this code base; no finished solver-based check yet (see DESIGN.md)",
     "C07": "float -> decimal conversion ({:.N}, to_string: grisu/dragon big-number loops) is the subject and cannot be executed symbolically within reach; a contract-stub harness was not completed",
     "C08": "mechanism is str::replace + f64::parse inside regex-capture loops and re-tokenisation of number.to_string(); the regex engine and float<->string conversion cannot be executed symbolically within reach",
     "C15": "printer/reader round trip: both ends are string/regex code (format strings, word lists, literal regexes) with no arithmetic kernel to encode",
